@@ -60,9 +60,11 @@ def reference_trace(body):
 
 # ---------------------------------------------------------------------------------------------------------------
 class Session:
-    def __init__(self, src, sched, trace=True):
+    def __init__(self, src, sched, trace=True, extra_files=None):
         self.dir = tempfile.mkdtemp(prefix="mosverif-c19-")
         open(os.path.join(self.dir, "mos.toml"), "w").write("")
+        for name, text in (extra_files or {}).items():
+            open(os.path.join(self.dir, name), "w").write(text)
         self.path = os.path.join(self.dir, "main.asm")
         open(self.path, "w").write(src)
         self.trace_file = os.path.join(self.dir, "h2trace.log")
@@ -579,6 +581,92 @@ def pipelined_steps_session(job):
         ses.close()
 
 
+RECURSIVE = ('.test "a" {\n    ldx #3\n    ldy #0\n    jsr rec\n    brk\nrec:\n    dex\n    beq done\n    jsr rec\n    iny\ndone:\n    rts\n}\n')
+# lines: jsr rec (inner) = 9, iny = 10
+
+
+def recursive_next_session(sched):
+    """`next` on a call of a subroutine that calls itself: the step ends behind THIS call (when the stack is back where it was),
+    not when a deeper invocation passes the same address."""
+    out = {"violations": [], "inconclusive": [], "counts": {}, "cover": {"next-over-recursive-call"}, "sample": None, "evaluations": 1}
+    ses = Session(RECURSIVE, sched, trace=False)
+    try:
+        r = ses.start([9])
+        if not isinstance(r, dict) or not r.get("success") or ses.wait_stop(10) != "stopped":
+            out["inconclusive"].append("recursive-next session did not start")
+            return out
+        snap = ses.snapshot()
+        if snap is None or snap["line"] != 9 or snap["X"] != 2:
+            out["inconclusive"].append("recursive-next: unexpected first stop %r" % (snap,))
+            return out
+        ses.ev = ses.dap.event_count()
+        ses.dap.request("next", {"threadId": 1})
+        what = ses.wait_stop(10)
+        snap = ses.snapshot() if what == "stopped" else None
+        out["evaluations"] += 1
+        if what != "stopped" or snap is None or snap["line"] != 10 or snap["Y"] != 1 or snap["X"] != 0:
+            out["violations"].append(("step-wrong|next-over-recursive-call", "`next` on `jsr rec` (X=2, Y=0) must stop behind that call at line 10 with X=0, Y=1 (the deeper "
+                                      "invocations have run); got %s %r" % (what, snap), {"source": RECURSIVE, "sched": sched, "snapshot": snap}))
+            return out
+        out["counts"]["recursive_next_ok"] = 1
+        return out
+    finally:
+        ses.close()
+
+
+TWO_FILES_MAIN = '.import * from "other.asm"\n.test "a" {\n    ldx #0\n    jsr sub\n    inx\n    jsr sub\n    brk\n}\n'
+TWO_FILES_OTHER = "sub:\n    iny\n    rts\n"
+# main.asm: inx = 5; other.asm: iny = 2
+
+
+def two_file_breakpoints_session(sched):
+    """A client sets breakpoints with one request per source file: those of the other files stay."""
+    out = {"violations": [], "inconclusive": [], "counts": {}, "cover": {"breakpoints-in-two-files"}, "sample": None, "evaluations": 1}
+    ses = Session(TWO_FILES_MAIN, sched, trace=False, extra_files={"other.asm": TWO_FILES_OTHER})
+    try:
+        d = ses.dap
+        d.request("initialize", {"adapterID": "mos", "linesStartAt1": True, "columnsStartAt1": True})
+        r = d.request("launch", {"workspace": ses.dir, "testRunner": {"testCaseName": "a"}})
+        if not isinstance(r, dict) or not r.get("success"):
+            out["inconclusive"].append("two-file session did not launch: %r" % (r,))
+            return out
+        other = os.path.join(ses.dir, "other.asm")
+        order = [(ses.path, [5]), (other, [2])]
+        if sched is not None and hash(sched) % 2:
+            order.reverse()
+        for path, lines in order:
+            d.request("setBreakpoints", {"source": {"path": path}, "breakpoints": [{"line": l} for l in lines]})
+        d.request("configurationDone", None)
+        expected = [("other.asm", 2, 0), ("main.asm", 5, 0), ("other.asm", 2, 1)]
+        for k, (fname, line, x) in enumerate(expected):
+            what = ses.wait_stop(10)
+            if what == "terminated":
+                out["violations"].append(("breakpoint-run-over|breakpoints-in-two-files", "the test ended after %d of 3 stops: the breakpoint at %s:%d was run over "
+                                          "(breakpoints were set with one request per file, %s first)" % (k, fname, line, os.path.basename(order[0][0])),
+                                          {"main.asm": TWO_FILES_MAIN, "other.asm": TWO_FILES_OTHER, "sched": sched}))
+                return out
+            if what is None:
+                out["inconclusive"].append("two-file session: no event")
+                return out
+            st = d.request("stackTrace", {"threadId": 1})
+            frames = (st.get("body") or {}).get("stackFrames") or []
+            regs = d.request("variables", {"variablesReference": 1})
+            xs = [int(v["value"]) for v in (regs.get("body") or {}).get("variables", []) if v["name"] == "X"]
+            got = (os.path.basename(((frames[0].get("source") or {}).get("path")) or "?"), frames[0]["line"], xs[0] if xs else None) if frames else None
+            out["evaluations"] += 1
+            if got != (fname, line, x):
+                out["violations"].append(("breakpoint-run-over|breakpoints-in-two-files" if got in expected[k + 1:] else "stale-frame|breakpoints-in-two-files",
+                                          "stop %d: expected %s:%d with X=%d, the debugger shows %r" % (k + 1, fname, line, x, got),
+                                          {"main.asm": TWO_FILES_MAIN, "other.asm": TWO_FILES_OTHER, "sched": sched}))
+                return out
+            out["counts"]["two_file_stops"] = out["counts"].get("two_file_stops", 0) + 1
+            ses.ev = d.event_count()
+            d.request("continue", {"threadId": 1})
+        return out
+    finally:
+        ses.close()
+
+
 def threads_all_sleeping(pid):
     """True when two samples of /proc one second apart show every thread sleeping with no CPU time consumed in between."""
     def sample():
@@ -701,6 +789,10 @@ def main(tier, seed):
         results.append(multi_address_session(sched))
         jobs.append(("stepout-pushed-%d" % k, False, sched, "witness"))
         results.append(stepout_pushed_session(sched))
+        jobs.append(("recursive-next-%d" % k, False, sched, "witness"))
+        results.append(recursive_next_session(sched))
+        jobs.append(("two-file-breakpoints-%d" % k, False, sched, "witness"))
+        results.append(two_file_breakpoints_session(sched))
     for job, o in zip(jobs, results):
         acc.evaluations += o["evaluations"]
         for k, v in o["counts"].items():
@@ -728,6 +820,7 @@ def main(tier, seed):
              "model's successor / return / caller index. Segment walks: a test whose code is spread over blocks of several segments "
              "written in a random order (bytes not emitted in ascending address order) is single-stepped or run from breakpoint to "
              "breakpoint; frame line, X and Y are known for every stop. Pipelined steps: 3000-6000 `next` requests sent without waiting "
-             "for the answers; every one must be answered and the machine must be where that many steps lead. Non-trivial = distinct session without inconclusive step.",
+             "for the answers; every one must be answered and the machine must be where that many steps lead. Witness sessions: `next` over a call of "
+             "a subroutine that calls itself; breakpoints in two source files set with one request per file. Non-trivial = distinct session without inconclusive step.",
         assumptions=["cpu6502.py (incl. its cycle table) is the reference; the calibration sessions compare it with the adapter step by step",
                      "programs avoid self-branches; schedule space is sampled, the phases seen are reported"], min_nontrivial=2)
